@@ -31,4 +31,10 @@ def dayContributions (db : Book) (foods : Elements) : Elements :=
   (foods.map (Report.contributions db)).flatten
 
 end Spec
+
+/-- the amount listed under `n` (0 when `n` is not listed) -/
+def Elements.valueAt (es : Elements) (n : Bytes) : Q := match List.find? (fun x => x.name == n) es with
+  | some x => x.value
+  | none => 0
+
 end Hrano
